@@ -55,6 +55,18 @@ class Prop:
             "non-trivial = at least one sibling list with two different kinds or two nodes of one kind")
     exhaustive_note = "all shapes <= N nodes x all kind assignments (N=4 quick)"
     assumptions = ["identity of nodes is the allocation index recorded by a harness-side wrapper of Node.__init__"]
+    manifest = dict(
+        text=("Machine-checked theorems (Coq 8.16, no axioms) that every kind-aware query of the executable model equals the plain query "
+              "on the kind-filtered child/sibling list, for every forest with unique node identities, every node (top level included), "
+              "every kind and any_kind on/off; the model is tied to /repo on every run by a correspondence check (model evaluated by "
+              "vm_compute vs. the implementation on all typed trees <=4 nodes x all kind assignments + random trees, every node, every "
+              "query) and an independent Python oracle of the property statement."),
+        note=("Trusted: Coq kernel + vm_compute; hand-written model theories/Forest/Nav.v (tied by the correspondence only); harness "
+              "generators/observation; node identity = allocation index recorded by a harness-side wrapper of Node.__init__. "
+              "Print Assumptions: closed under the global context for all theorems."),
+        technique="Coq proof about an executable Gallina model + differential correspondence check (vm_compute) + Python oracle",
+        design_ref="DESIGN.md section 6 (C15)",
+    )
 
     # ----- generation
     def descs(self, tier, rng):
